@@ -16,36 +16,11 @@ Qed.
 Lemma kmin_in : forall d row, row <> [] -> In (kmin Z Z.ltb d row) row.
 Proof. intros d [|a r] H; [congruence|]. simpl. apply kmin_fold_in. Qed.
 
-Lemma step1_T : forall n M0 s, (forall i j, (i < n)%nat -> (j < n)%nat -> 0 <= M0 i j) ->
-  T1 n M0 s -> T2 n M0 (zstep1 s).
-Proof.
-  intros n M0 s Hnn P. split; [apply step1_P; exact P|].
-  destruct P as [W [HC [HM HV]]]. pose proof W as [SC _].
-  exists (fun i => kmin Z Z.ltb 0 (nth i (sC s) [])), (fun _ => 0). split.
-  - intros i j Hi Hj. rewrite (step1_C n s i j W Hi Hj). rewrite HC by assumption. lia.
-  - unfold dsum.
-    assert (0 <= lsum (map (fun i => kmin Z Z.ltb 0 (nth i (sC s) [])) (seq 0 n))).
-    { apply lsum_nonneg. intros i Hi. apply in_seq in Hi.
-      assert (L : length (nth i (sC s) []) = n) by (apply (sq_row_len n); [exact SC | lia]).
-      assert (NE : nth i (sC s) [] <> []) by (intro E; rewrite E in L; simpl in L; lia).
-      pose proof (kmin_in 0 _ NE) as HI. apply (In_nth _ _ 0) in HI. destruct HI as [j [Hj E]].
-      rewrite <- E. change (nth j (nth i (sC s) []) 0) with (gC s i j).
-      rewrite HC by lia. apply Hnn; lia. }
-    assert (0 <= lsum (map (fun _ : nat => 0) (seq 0 n))) by (apply lsum_nonneg; intros; lia).
-    lia.
-Qed.
-
-Lemma step2_C : forall s, sC (zstep2 s) = sC s.
-Proof.
-  intro s. unfold zstep2, step2.
-  destruct (step2_rows Z 0 Z.eqb (sC s) 0 (sM s) (sRC s) (sCC s)) as [[mk rc] cc]. reflexivity.
-Qed.
+Lemma step1_T : forall n M0 s, T1 n M0 s -> T2 n M0 (zstep1 s).
+Proof. intros n M0 s P. apply step1_P. exact P. Qed.
 
 Lemma step2_T : forall n M0 s, T2 n M0 s -> T3 n M0 (zstep2 s).
-Proof.
-  intros n M0 s [P D]. split; [apply step2_P; exact P|].
-  apply (shiftedD_C n M0 s); [apply step2_C | exact D].
-Qed.
+Proof. intros n M0 s P. apply step2_P. exact P. Qed.
 
 (* step 3 with clear covers counts exactly the starred columns *)
 Lemma step3_count : forall n M0 s, P3 n M0 s ->
@@ -65,7 +40,7 @@ Lemma step3_T : forall n M0 s, T3 n M0 s ->
   \/ (snd (zstep3 n s) = 4%nat /\ T4 n M0 (fst (zstep3 n s))
       /\ cnt (sRC (fst (zstep3 n s))) = 0%nat /\ kc n (fst (zstep3 n s)) = kc n s).
 Proof.
-  intros n M0 s [P D]. rewrite (step3_count n M0 s P).
+  intros n M0 s P. rewrite (step3_count n M0 s P).
   destruct (Nat.leb_spec n (kc n s)) as [L|L]; [left; reflexivity|]. right. split; [reflexivity|].
   pose proof P as [B [NP [CR CC]]]. pose proof (b_wf _ _ _ B) as [_ [_ [Lr Lc]]].
   rewrite (step3_state n s).
@@ -74,7 +49,6 @@ Proof.
     by reflexivity.
   split; [|split; [exact R0 | exact K]].
   split; [rewrite <- (step3_state n s); apply step3_P4; exact P|].
-  split; [apply (shiftedD_C n M0 s); [reflexivity | exact D]|].
   split; [rewrite K; exact L|].
   split; [|split].
   - rewrite K. simpl. rewrite R0. simpl. rewrite cnt_eq_filter. rewrite mapi_length, Lc. unfold kc. f_equal.
